@@ -6,7 +6,8 @@ C11 - the two general transitions of a client and the invariant:
   to its `up` queue and to its `invocations` / `answers` logs, such that for every key the number of
   tokens it holds (stamped call in `down`, unfired Deferred, reply in `up`) is unchanged
   (dispatch of a call, firing of a Deferred);
-* `Inv.caller_complete`: client `c`, acting as a caller, consumes a reply and records the completion.
+* `Inv.caller_move`: client `c`, acting as a caller, consumes a reply and records the completion, ignores a reply
+  that comes after the deadline, or lets a deadline pass.
 -/
 namespace Txdbus.Net
 
@@ -50,6 +51,8 @@ theorem mv_completions : ((net').cl j).completions = (net.cl j).completions := b
 theorem mv_issued : ((net').cl j).issued = (net.cl j).issued := by
   simp only [moved, Net.upd_cl]; repeat' split <;> simp_all
 theorem mv_pending : ((net').cl j).pending = (net.cl j).pending := by
+  simp only [moved, Net.upd_cl]; repeat' split <;> simp_all
+theorem mv_late : ((net').cl j).late = (net.cl j).late := by
   simp only [moved, Net.upd_cl]; repeat' split <;> simp_all
 theorem mv_nextSerial : ((net').cl j).nextSerial = if j = c then ns else (net.cl j).nextSerial := by
   simp only [moved, Net.upd_cl]; repeat' split <;> simp_all
@@ -147,13 +150,20 @@ theorem Inv.exporter_move (inv : Inv w net)
   · intro a r h hz
     rw [mv_issued] at h; rw [mv_completions] at hz; rw [mv_pending]
     exact inv.pend a r h hz
+  · intro a s v hp
+    rw [mv_pending] at hp; rw [mv_issued, mv_completions]
+    exact inv.pend_inv a s v hp
+  · intro a s
+    rw [mv_completions]; exact inv.compl_le a s
+  · intro a s hs
+    rw [mv_late] at hs; rw [mv_completions]; exact inv.late_ok a s hs
   · intro a r h
     rw [mv_issued] at h
     have := inv.tok a r h
     have t := hT a r.serial
     have u := hUc r.serial
     have dr := hDr r.serial
-    simp only [tokens, stages, Stages.total, mv_up, mv_down, mv_exec, mv_completions, Net.upd_dropped,
+    simp only [tokens, stages, Stages.total, mv_up, mv_down, mv_exec, mv_completions, mv_late, Net.upd_dropped,
       countP_ite, List.countP_append] at this ⊢
     by_cases ha : a = c <;> by_cases hd : r.dest = c
     · simp only [ha, hd, if_true] at this t ⊢; omega
@@ -165,7 +175,7 @@ theorem Inv.exporter_move (inv : Inv w net)
     have := inv.ans_cnt a r h
     have au := hAU a r.serial
     have dr := hDr r.serial
-    simp only [answersFor, stages, mv_up, mv_down, mv_exec, mv_completions, mv_answers, Net.upd_dropped,
+    simp only [answersFor, stages, mv_up, mv_down, mv_exec, mv_completions, mv_late, mv_answers, Net.upd_dropped,
       countP_ite, List.countP_append] at this ⊢
     by_cases ha : a = c <;> by_cases hd : r.dest = c
     · simp only [ha, hd, if_true] at this au ⊢; omega
@@ -182,137 +192,139 @@ theorem Inv.exporter_move (inv : Inv w net)
     · simp only [hd, if_true] at this ⊢; omega
     · simp only [hd, if_false] at this ⊢; omega
 
-/-- The caller-side change: a reply is consumed, its completion recorded. -/
-def completed (cl : Client V) (rest : List (Msg V)) (rs : Nat) (o : Outcome V) : Client V :=
-  { cl with down := rest, pending := pErase cl.pending rs, completions := cl.completions ++ [(rs, o)] }
+/-- The caller-side change of a client: its `down` queue and `pending` table are replaced, completions and
+ignored replies are appended (a reply completes its call; a reply arrives too late; a deadline passes). -/
+def callerMoved (cl : Client V) (D : List (Msg V)) (P : Pending) (C : List (Nat × Outcome V)) (L : List Nat) :
+    Client V :=
+  { cl with down := D, pending := P, completions := cl.completions ++ C, late := cl.late ++ L }
 
 section projc
-variable (net : Net V) (c : Nat) (rest : List (Msg V)) (rs : Nat) (o : Outcome V) (j : Nat)
+variable (net : Net V) (c : Nat) (D : List (Msg V)) (P : Pending) (C : List (Nat × Outcome V)) (L : List Nat)
+  (j : Nat)
 
-local notation "net'" => Net.upd net c (fun cl => completed cl rest rs o)
+local notation "net'" => Net.upd net c (fun cl => callerMoved cl D P C L)
 
-theorem cp_up : ((net').cl j).up = (net.cl j).up := by
-  simp only [completed, Net.upd_cl]; repeat' split <;> simp_all
-theorem cp_down : ((net').cl j).down = if j = c then rest else (net.cl j).down := by
-  simp only [completed, Net.upd_cl]; repeat' split <;> simp_all
-theorem cp_exec : ((net').cl j).exec = (net.cl j).exec := by
-  simp only [completed, Net.upd_cl]; repeat' split <;> simp_all
-theorem cp_invocations : ((net').cl j).invocations = (net.cl j).invocations := by
-  simp only [completed, Net.upd_cl]; repeat' split <;> simp_all
-theorem cp_answers : ((net').cl j).answers = (net.cl j).answers := by
-  simp only [completed, Net.upd_cl]; repeat' split <;> simp_all
-theorem cp_completions : ((net').cl j).completions =
-    if j = c then (net.cl j).completions ++ [(rs, o)] else (net.cl j).completions := by
-  simp only [completed, Net.upd_cl]; repeat' split <;> simp_all
-theorem cp_issued : ((net').cl j).issued = (net.cl j).issued := by
-  simp only [completed, Net.upd_cl]; repeat' split <;> simp_all
-theorem cp_pending : ((net').cl j).pending = if j = c then pErase (net.cl j).pending rs else (net.cl j).pending := by
-  simp only [completed, Net.upd_cl]; repeat' split <;> simp_all
-theorem cp_nextSerial : ((net').cl j).nextSerial = (net.cl j).nextSerial := by
-  simp only [completed, Net.upd_cl]; repeat' split <;> simp_all
+theorem cm_up : ((net').cl j).up = (net.cl j).up := by
+  simp only [callerMoved, Net.upd_cl]; repeat' split <;> simp_all
+theorem cm_down : ((net').cl j).down = if j = c then D else (net.cl j).down := by
+  simp only [callerMoved, Net.upd_cl]; repeat' split <;> simp_all
+theorem cm_exec : ((net').cl j).exec = (net.cl j).exec := by
+  simp only [callerMoved, Net.upd_cl]; repeat' split <;> simp_all
+theorem cm_invocations : ((net').cl j).invocations = (net.cl j).invocations := by
+  simp only [callerMoved, Net.upd_cl]; repeat' split <;> simp_all
+theorem cm_answers : ((net').cl j).answers = (net.cl j).answers := by
+  simp only [callerMoved, Net.upd_cl]; repeat' split <;> simp_all
+theorem cm_completions : ((net').cl j).completions =
+    if j = c then (net.cl j).completions ++ C else (net.cl j).completions := by
+  simp only [callerMoved, Net.upd_cl]; repeat' split <;> simp_all
+theorem cm_late : ((net').cl j).late = if j = c then (net.cl j).late ++ L else (net.cl j).late := by
+  simp only [callerMoved, Net.upd_cl]; repeat' split <;> simp_all
+theorem cm_issued : ((net').cl j).issued = (net.cl j).issued := by
+  simp only [callerMoved, Net.upd_cl]; repeat' split <;> simp_all
+theorem cm_pending : ((net').cl j).pending = if j = c then P else (net.cl j).pending := by
+  simp only [callerMoved, Net.upd_cl]; repeat' split <;> simp_all
+theorem cm_nextSerial : ((net').cl j).nextSerial = (net.cl j).nextSerial := by
+  simp only [callerMoved, Net.upd_cl]; repeat' split <;> simp_all
 
 end projc
 
-theorem Inv.caller_complete (inv : Inv w net) {sn rs : Nat} {sender dest : Option Nat} {content : Reply V}
-    {rest : List (Msg V)} {o : Outcome V}
-    (hdown : (net.cl c).down = .reply sn rs sender dest content :: rest)
-    (hnew : ComplOK w net c (rs, o)) :
-    Inv w (net.upd c (fun cl => completed cl rest rs o)) := by
-  have hle : Le net (net.upd c (fun cl => completed cl rest rs o)) :=
-    ⟨rfl, fun j r h => by rw [cp_issued]; exact h, fun j x h => by rw [cp_answers]; exact h⟩
-  have hd : ∀ j, j = c → (net.cl j).down = .reply sn rs sender dest content :: rest := fun j h => h ▸ hdown
-  have memd : ∀ j x, x ∈ (if j = c then rest else (net.cl j).down) → x ∈ (net.cl j).down := by
-    intro j x hx
-    by_cases hj : j = c
-    · simp only [hj, if_true] at hx; rw [hd j hj]; exact List.mem_cons_of_mem _ hx
-    · simpa [hj] using hx
+theorem Inv.caller_move (inv : Inv w net) {D : List (Msg V)} {P : Pending} {C : List (Nat × Outcome V)}
+    {L : List Nat}
+    (hD : ∀ x, x ∈ D → x ∈ (net.cl c).down)
+    (hC : ∀ x, x ∈ C → ComplOK w net c x)
+    (hcalls : ∀ a s, D.countP (isCallFrom a s) = (net.cl c).down.countP (isCallFrom a s))
+    (hreplies : ∀ s, D.countP (isReply s) + C.countP (complReplyKey s) + L.countP (lateKey s) =
+      (net.cl c).down.countP (isReply s))
+    (hpend : ∀ r, r ∈ (net.cl c).issued → ((net.cl c).completions ++ C).countP (complKey r.serial) = 0 →
+      pLookup P r.serial = some r.retSig)
+    (hpinv : ∀ s v, pLookup P s = some v → ∃ r, r ∈ (net.cl c).issued ∧ r.serial = s ∧ v = r.retSig ∧
+      ((net.cl c).completions ++ C).countP (complKey s) = 0)
+    (hcle : ∀ s, ((net.cl c).completions ++ C).countP (complKey s) ≤ 1)
+    (hlate : ∀ s, s ∈ (net.cl c).late ++ L → 1 ≤ ((net.cl c).completions ++ C).countP (complKey s)) :
+    Inv w (net.upd c (fun cl => callerMoved cl D P C L)) := by
+  have hle : Le net (net.upd c (fun cl => callerMoved cl D P C L)) :=
+    ⟨rfl, fun j r h => by rw [cm_issued]; exact h, fun j x h => by rw [cm_answers]; exact h⟩
   constructor
   · intro j m hm
-    rw [cp_up] at hm
+    rw [cm_up] at hm
     exact (inv.up_ok j m hm).mono hle
   · intro j m hm
-    rw [cp_down] at hm
-    exact (inv.down_ok j m (memd j m hm)).mono hle
+    rw [cm_down] at hm
+    by_cases hj : j = c
+    · simp only [hj, if_true] at hm; rw [hj]; exact (inv.down_ok c m (hD m hm)).mono hle
+    · simp only [hj, if_false] at hm; exact (inv.down_ok j m hm).mono hle
   · intro m hm
     exact (inv.drop_ok m hm).mono hle
   · intro j e he
-    rw [cp_exec] at he
+    rw [cm_exec] at he
     exact (inv.exec_ok j e he).mono hle
   · intro j x hx
-    rw [cp_answers] at hx
+    rw [cm_answers] at hx
     exact (inv.ans_ok j x hx).mono hle
   · intro j iv hiv
-    rw [cp_invocations] at hiv
+    rw [cm_invocations] at hiv
     exact (inv.inv_ok j iv hiv).mono hle
   · intro a x hx
-    rw [cp_completions] at hx
+    rw [cm_completions] at hx
     by_cases ha : a = c
-    · simp only [ha, if_true, List.mem_append, List.mem_singleton] at hx
+    · simp only [ha, if_true, List.mem_append] at hx
       rw [ha]
       rcases hx with hx | hx
       · exact (inv.compl_ok c x hx).mono hle
-      · rw [hx]; exact hnew.mono hle
+      · exact (hC x hx).mono hle
     · simp only [ha, if_false] at hx
       exact (inv.compl_ok a x hx).mono hle
   · intro a r h
-    rw [cp_issued] at h; rw [cp_nextSerial]
+    rw [cm_issued] at h; rw [cm_nextSerial]
     exact inv.serial_lt a r h
   · intro a r r' h h'
-    rw [cp_issued] at h h'
+    rw [cm_issued] at h h'
     exact inv.serial_uniq a r r' h h'
   · intro a r h hz
-    rw [cp_issued] at h; rw [cp_completions] at hz; rw [cp_pending]
+    rw [cm_issued] at h; rw [cm_completions] at hz; rw [cm_pending]
     by_cases ha : a = c
-    · rw [ha] at h
-      simp only [ha, if_true, countP_snoc] at hz ⊢
-      have hne : ¬ rs = r.serial := by
-        intro e
-        simp [complKey, e] at hz
-      have hz' : (net.cl c).completions.countP (complKey r.serial) = 0 := by omega
-      rw [pLookup_erase, if_neg (fun e => hne e.symm)]
-      exact inv.pend c r h hz'
-    · simp only [ha, if_false] at hz ⊢
-      exact inv.pend a r h hz
+    · rw [ha] at h; simp only [ha, if_true] at hz ⊢; exact hpend r h hz
+    · simp only [ha, if_false] at hz ⊢; exact inv.pend a r h hz
+  · intro a s v hp
+    rw [cm_pending] at hp; rw [cm_issued, cm_completions]
+    by_cases ha : a = c
+    · simp only [ha, if_true] at hp ⊢; exact hpinv s v hp
+    · simp only [ha, if_false] at hp ⊢; exact inv.pend_inv a s v hp
+  · intro a s
+    rw [cm_completions]
+    by_cases ha : a = c
+    · simp only [ha, if_true]; exact hcle s
+    · simp only [ha, if_false]; exact inv.compl_le a s
+  · intro a s hs
+    rw [cm_late] at hs; rw [cm_completions]
+    by_cases ha : a = c
+    · simp only [ha, if_true] at hs ⊢; exact hlate s hs
+    · simp only [ha, if_false] at hs ⊢; exact inv.late_ok a s hs
   · intro a r h
-    rw [cp_issued] at h
+    rw [cm_issued] at h
     have := inv.tok a r h
-    have e1 := countP_ite_tail (isReply r.serial) (a = c) (net.cl a).down rest _ (hd a)
-    have e2 := countP_ite_tail (isCallFrom a r.serial) (r.dest = c) (net.cl r.dest).down rest _ (hd r.dest)
-    simp only [tokens, stages, Stages.total, cp_up, cp_down, cp_exec, cp_completions, Net.upd_dropped,
-      countP_ite_snoc] at this ⊢
-    simp only [isCallFrom, Bool.false_eq_true, and_false, if_false, Nat.add_zero] at e2
-    by_cases hk : a = c ∧ rs = r.serial
-    · obtain ⟨ha, hr⟩ := hk
-      subst ha
-      simp only [isReply, complKey, hr, beq_self_eq_true, and_self, if_true] at e1 this ⊢
-      omega
-    · have k1 : ¬ (a = c ∧ isReply r.serial (Msg.reply sn rs sender dest content) = true) := by
-        simp only [isReply, beq_iff_eq]; exact hk
-      have k2 : ¬ (a = c ∧ complKey r.serial (rs, o) = true) := by
-        simp only [complKey, beq_iff_eq]; exact hk
-      simp only [k1, k2, if_false] at e1 ⊢
-      omega
+    have e1 := hreplies r.serial
+    have e2 := hcalls a r.serial
+    simp only [tokens, stages, Stages.total, cm_up, cm_down, cm_exec, cm_completions, cm_late, Net.upd_dropped,
+      countP_ite, List.countP_append] at this ⊢
+    by_cases ha : a = c <;> by_cases hd : r.dest = c
+    · simp only [ha, hd, if_true] at this e2 ⊢; omega
+    · simp only [ha, hd, if_true, if_false] at this e2 ⊢; omega
+    · simp only [ha, hd, if_true, if_false] at this e2 ⊢; omega
+    · simp only [ha, hd, if_false] at this ⊢; omega
   · intro a r h
-    rw [cp_issued] at h
+    rw [cm_issued] at h
     have := inv.ans_cnt a r h
-    have e1 := countP_ite_tail (isReply r.serial) (a = c) (net.cl a).down rest _ (hd a)
-    simp only [answersFor, stages, cp_up, cp_down, cp_exec, cp_completions, cp_answers, Net.upd_dropped,
-      countP_ite_snoc] at this ⊢
-    by_cases hk : a = c ∧ rs = r.serial
-    · obtain ⟨ha, hr⟩ := hk
-      subst ha
-      simp only [isReply, complKey, hr, beq_self_eq_true, and_self, if_true] at e1 this ⊢
-      omega
-    · have k1 : ¬ (a = c ∧ isReply r.serial (Msg.reply sn rs sender dest content) = true) := by
-        simp only [isReply, beq_iff_eq]; exact hk
-      have k2 : ¬ (a = c ∧ complKey r.serial (rs, o) = true) := by
-        simp only [complKey, beq_iff_eq]; exact hk
-      simp only [k1, k2, if_false] at e1 ⊢
-      omega
+    have e1 := hreplies r.serial
+    simp only [answersFor, stages, cm_up, cm_down, cm_exec, cm_completions, cm_late, cm_answers, Net.upd_dropped,
+      countP_ite, List.countP_append] at this ⊢
+    by_cases ha : a = c
+    · simp only [ha, if_true] at this ⊢; omega
+    · simp only [ha, if_false] at this ⊢; omega
   · intro a r h
-    rw [cp_issued] at h
+    rw [cm_issued] at h
     have := inv.inv_cnt a r h
-    simp only [invocationsFor, resultsFor, stages, cp_exec, cp_answers, cp_invocations] at this ⊢
+    simp only [invocationsFor, resultsFor, stages, cm_exec, cm_answers, cm_invocations] at this ⊢
     exact this
 
 end
